@@ -203,3 +203,18 @@ package graph
 //@   requires b != nil && 0 <= i && i < len(b.preds)
 //@   ensures [def] len(result) == len(b.preds[i]) && (forall e in 0..len(result) :: result[e] == b.preds[i][e])
 //@   assigns nothing
+
+// The two small adapters of package graph.
+//@ func IntGraph.NumNodes
+//@   model int
+//@   ensures [def] result == len(g)
+//@   assigns nothing
+//@ func IntGraph.Out
+//@   model int
+//@   requires 0 <= i && i < len(g)
+//@   ensures [def] len(result) == len(g[i]) && (forall e in 0..len(result) :: result[e] == g[i][e])
+//@   assigns nothing
+//@ func WeightedUnit.OutWeight
+//@   model real
+//@   ensures [unit] result == 1
+//@   assigns nothing
